@@ -543,7 +543,7 @@ impl Prop for C20 {
             let kind = *rng.pick(&KINDS);
             layers.push(Layer { kind, msg_seed: rng.next(), ann: gen_ann(rng, kind) });
         }
-        let name = if rng.chance(1, 2) { Some((*rng.pick(&["ghcr.io/jij-inc/ommx/sim:tag1", "localhost:5000/test/image:latest", "example.com/a/b/c:v1.0"])).to_string()) } else { None };
+        let name = if rng.chance(1, 2) { Some((*rng.pick(&["ghcr.io/jij-inc/ommx/sim:tag1", "localhost:5000/test/image:latest", "example.com/a/b/c:v1.0", "ghcr.io/jij-inc/ommx/model:v1.2-RC1_Final", "registry.example.org:8443/x/y.z/w_1:A"])).to_string()) } else { None };
         let n_ops = n as u32 + 3;
         let mode = rng.below(20);
         let mut faults = vec![];
